@@ -211,6 +211,56 @@ Proof.
     + right. exists j. rewrite Hj. cbn [rev app]. apply at_end_final.
 Qed.
 
+(* ------------------------------------------------------------------ the same two theorems for the
+   writer parametrised by an ARBITRARY metadata test: what comes back is [rep_with meq None None t] *)
+Theorem parse_ser_with_gen meq flag t : wf t -> no_0x88_key t ->
+  parse_gen flag (ser_with meq t) = final flag (rep_with meq None None t).
+Proof.
+  intros Hwf H88. unfold ser_with. rewrite parse_gen_hdr. unfold after_header.
+  pose proof (pool_small_of _ Hwf) as Hs. pose proof (pool_strs_ok _ Hwf) as Hp.
+  rewrite (pool_rt _ Hs Hp).
+  rewrite (body_rt_with (pool_of t) Hs meq flag t).
+  - cbn [rev app]. apply at_end_final.
+  - now apply cells_ok_of.
+  - rewrite app_length. lia.
+Qed.
+
+
+
+Theorem parse_prefix_with_gen meq flag t n : wf t -> no_0x88_key t -> (n < length (ser_with meq t))%nat ->
+  PrefixResult flag (rep_with meq None None t) (parse_gen flag (firstn n (ser_with meq t))).
+Proof.
+  intros Hwf H88 Hn. unfold ser_with in *.
+  pose proof (pool_small_of _ Hwf) as Hs. pose proof (pool_strs_ok _ Hwf) as Hp.
+  pose proof (cells_ok_of _ Hwf H88) as Hok.
+  set (pool := pool_of t) in *.
+  destruct (Nat.lt_ge_cases n 5) as [Hlt|Hge].
+  { left. now apply parse_gen_short. }
+  replace n with (5 + (n - 5))%nat by lia. rewrite firstn_hdr, parse_gen_hdr.
+  set (m := (n - 5)%nat).
+  assert (Hm : (m < length (enc_pool pool ++ enc_body_with meq pool None t))%nat).
+  { change (length (MAGIC ++ [VERSION] ++ enc_pool pool ++ enc_body_with meq pool None t))
+      with (5 + length (enc_pool pool ++ enc_body_with meq pool None t))%nat in Hn. lia. }
+  unfold after_header.
+  assert (Hfu : (m < S (5 + length (firstn m (enc_pool pool ++ enc_body_with meq pool None t))))%nat).
+  { rewrite firstn_length. lia. }
+  set (fuel := S (5 + length (firstn m (enc_pool pool ++ enc_body_with meq pool None t)))) in *.
+  clearbody fuel.
+  destruct (Nat.lt_ge_cases m (length (enc_pool pool))) as [Hlt|Hge'].
+  - rewrite firstn_app_lt by assumption.
+    destruct (pool_tb pool Hs Hp m Hlt) as [[e ->]|[y ->]].
+    + left. now exists e.
+    + right. exists O. destruct fuel; [lia|]. cbn [dec_body rev firstn]. apply at_end_final.
+  - rewrite firstn_app_ge by assumption. rewrite (pool_rt pool Hs Hp).
+    rewrite app_length in Hm.
+    destruct (body_trunc_with pool Hs meq flag t fuel
+                None None [] (m - length (enc_pool pool))%nat Hok) as [[e He]|[j Hj]].
+    + lia.
+    + lia.
+    + left. exists e. now rewrite He.
+    + right. exists j. rewrite Hj. cbn [rev app]. apply at_end_final.
+Qed.
+
 (* plain files *)
 Corollary parse_ser t : wf t -> no_0x88_key t -> parse (ser t) = ROk (cells t).
 Proof. intros H1 H2. apply (parse_ser_gen false t H1 H2). Qed.
@@ -255,3 +305,43 @@ Proof. reflexivity. Qed.
 
 Lemma dispatch_unknown_ext : read_flavour None ExtOther = RErr EValue.
 Proof. reflexivity. Qed.
+
+(* ------------------------------------------------------------------ Python's == as the writer's test *)
+Corollary parse_ser_py t : wf t -> no_0x88_key t -> parse (ser_py t) = ROk (rep_py t).
+Proof. intros H1 H2. apply (parse_ser_with_gen meta_pyeqb false t H1 H2). Qed.
+
+Corollary parse_prefix_py t n : wf t -> no_0x88_key t -> (n < length (ser_py t))%nat ->
+  (exists e, parse (firstn n (ser_py t)) = RErr e) \/
+  (exists k, parse (firstn n (ser_py t)) = ROk (firstn k (rep_py t))).
+Proof. intros H1 H2 H3. apply (parse_prefix_with_gen meta_pyeqb false t n H1 H2 H3). Qed.
+
+Lemma cell_eqb_eq a b : cell_eqb a b = true -> a = b.
+Proof.
+  destruct a, b. unfold cell_eqb. cbn. intros H. repeat (apply andb_true_iff in H as [H ?]).
+  f_equal; try (now apply date_eqb_eq); try (now apply dict_eqb_eq); try (now apply meta_eqb_eq).
+  - destruct c_kind, c_kind0; cbn in H; congruence.
+  - destruct c_prev, c_prev0; cbn in *; try discriminate; auto. f_equal. now apply date_eqb_eq.
+Qed.
+Lemma cells_eqb_eq a : forall b, cells_eqb a b = true -> a = b.
+Proof.
+  induction a as [|x a IH]; destruct b as [|y b]; cbn; intros H; try discriminate; auto.
+  apply andb_true_iff in H as [H1 H2]. f_equal; [now apply cell_eqb_eq | now apply IH].
+Qed.
+
+(* on coherent triangles (Python-equal adjacent metadata are structurally equal) nothing is
+   collapsed: the faithful writer round-trips exactly *)
+Corollary parse_ser_py_coherent t : wf t -> no_0x88_key t -> coherentb t = true ->
+  parse (ser_py t) = ROk (cells t).
+Proof.
+  intros H1 H2 H3. rewrite (parse_ser_py t H1 H2). f_equal. now apply cells_eqb_eq.
+Qed.
+
+Corollary parse_prefix_py_coherent t n : wf t -> no_0x88_key t -> coherentb t = true ->
+  (n < length (ser_py t))%nat ->
+  (exists e, parse (firstn n (ser_py t)) = RErr e) \/
+  (exists k, parse (firstn n (ser_py t)) = ROk (firstn k (cells t))).
+Proof.
+  intros H1 H2 H3 H4. apply cells_eqb_eq in H3.
+  destruct (parse_prefix_py t n H1 H2 H4) as [He|[k Hk]]; [now left|].
+  right. exists k. rewrite Hk. unfold cells. now rewrite H3.
+Qed.
